@@ -11,6 +11,7 @@ CONSTANTS
   MaxReorgs = 0
   MaxIdx = 1
   MaxFails = 0
+  InitDuties = FALSE
   Weaken = "noResetInFetch"
 INVARIANT AtMostOnce
 INVARIANT AtItsSlot
